@@ -17,11 +17,7 @@ def prop(pid, level, explanation, driver=None, trusted=(), assumptions=(), rule=
 
 
 prop('C17', 'other',
-     'Path algebra. PROVED (unbounded, all trees/paths): normalize_path == norm; get_in == tget; delete_in == tdel; '
-     'assoc_path == tset; update_in == tupd∘f; starts_with == prefix; lemmas get_assoc (get_in reads what assoc_path '
-     'wrote), delete_get (delete_in removes the entry). BOUNDED: the same contracts evaluated natively on generated '
-     'inputs (CPython cross-check of the encoding), and the Store navigation laws (path_to / path_for / get_path vs '
-     'lexical normal form) on real Store trees, which are outside the translated subset.',
+     "PROVED (unbounded, all trees/paths): normalize_path == norm; get_in == tget; delete_in == tdel; assoc_path == tset; update_in == tupd∘f with only the addressed subtree changed; starts_with == prefix; paths_to_dict == fold of assoc_path; Store.path_to == one '..' per element of self's path after the longest common prefix followed by the rest of the target's path; lemmas get_assoc (get_in reads what assoc_path wrote) and delete_get (delete_in removes the entry). BOUNDED: the same contracts natively on generated inputs; Store navigation laws (path_for / get_path / walk vs lexical normal form) on real Store trees.",
      driver='bounded.c17', assumptions=[OWN])
 
 SCHED_RULE = ('seeded random schedules + a systematic family (slow always-on process next to a fast conditional one under '
@@ -50,27 +46,21 @@ prop('C14', 'exploration',
      driver='bounded.c14', rule='seeded random value trees of depth <= 3/4 over the value pool of the statement; '
      'non-trivial = container values; distinct by repr',
      trusted=['orjson', 'pint', 'numpy'])
-prop('C18', 'exploration',
-     'BOUNDED part: timeseries / path-timeseries / query laws on generated histories (falsy values, changing shapes). '
-     'The deductive part (RAMEmitter.get_data via get_in/paths_to_dict contracts) is listed when built.',
+prop('C18', 'other',
+     'PROVED: RAMEmitter.get_data(query) returns, for every emitted time and no other, the dictionary built from exactly the queried paths that are present (not None) in THAT row -- independent of all other rows (inner-loop invariant paths_data == qpairs(row, query, i)); without a query the saved rows themselves; paths_to_dict == fold of assoc_path. BOUNDED: timeseries / path-timeseries laws and queries on generated histories (falsy values, changing shapes).',
      driver='bounded.c18')
-prop('C19', 'exploration',
-     'BOUNDED part: all permutations of event multisets x timesteps on the real engine against reference semantics.',
+prop('C19', 'other',
+     'PROVED: initialize_timeline leaves a timeline strictly increasing in time (equal times merged), given the trusted contract of sorted(); next_update consumes from the head exactly the events whose time has been reached (all removed events are due, every remaining event is later, the rest is unchanged and in order), however many fall due in one tick. NOT PROVED: that no event is lost by the sort (permutation argument) and the content of the returned update (nested_set re-binds its parameter: trusted). BOUNDED: all permutations of event multisets x timesteps on the real engine against reference semantics.',
      driver='bounded.c19')
 
 TOPO_RULE = ('seeded random (ports schema, topology, placement, partial initial state) from the shape families plain, "..", '
              '_path split/rename, two ports on one store, leaf port, nested port, glob, glob with own _path, nested glob; '
              'oracle addr = independent reading of the topology documentation')
-prop('C06', 'exploration',
-     'BOUNDED so far: on the real engine, the value read for every declared variable is the value of the node addr(q), '
-     'after one update that node holds value read + all increments wired to it, and no other node changed. The write-side '
-     'helpers (normalize_path, assoc_path, update_in, deep_merge*) are proved under C17 / listed when their contracts land.',
+prop('C06', 'other',
+     'PROVED (write-side helpers, all inputs): normalize_path == lexical normal form, assoc_path == tset, update_in changes only the addressed subtree (tupd) and creates the documented dictionaries, deep_merge == right-biased deep merge. NOT PROVED: inverse_topology itself (recursion with lambdas and in-place merges) and the read side (Store schema machinery). BOUNDED: read/write symmetry against the independent addr oracle on the real engine over the topology shape families.',
      drivers=[('bounded.topo', ['--prop', 'C06'])], rule=TOPO_RULE)
-prop('C07', 'exploration',
-     'BOUNDED ONLY (the view builder is schema-driven Store code outside the translated subset): states handed to '
-     'next_update have exactly the declared shape (no undeclared entries, glob = one entry per current child), from the '
-     'current hierarchy after every structural history; a step depending on a step that changed the structure sees it in '
-     'the same phase.',
+prop('C07', 'other',
+     "PROVED (the engine side): _process_state -- the only place where a process is shown its states -- has the precondition 'views valid'; run_for, _send_updates and run_steps establish it at every call site: after any applied update that reports expiry the views are rebuilt before anything is invoked. TRUSTED: Store.apply_update reports expiry for every structural key; build_topology_views builds the declared shape. BOUNDED (the substance): states have exactly the declared shape, glob ports list exactly the current children, after every structural history.",
      drivers=[('bounded.topo', ['--prop', 'C07']), ('bounded.struct', ['--prop', 'C07']), ('bounded.steps', ['--prop', 'C07'])],
      rule=TOPO_RULE)
 prop('C15', 'exploration',
@@ -84,28 +74,18 @@ prop('C09', 'exploration',
      'BOUNDED ONLY so far: after every batch the value tree equals the reference model of the documented meaning of the '
      'operations (double entry), all nodes not named by an operation keep identity and value, division conserves.',
      drivers=[('bounded.struct', ['--prop', 'C09'])], rule=STRUCT_RULE)
-prop('C10', 'exploration',
-     'BOUNDED so far: after every batch the engine\'s process/step paths equal the processes/steps found in the Store '
-     'tree, the published processes/steps/flow/topology equal state.get_*(), every live step runs exactly once per '
-     'phase, nothing dead is invoked, every live process keeps being invoked.',
+prop('C10', 'other',
+     'PROVED: Engine._delete_path removes from the published processes/steps/topology/flow exactly the entry at the deleted path (tdel) and forgets all and only the process and step paths that have the deleted path as a prefix (starts_with == prefix, proved); run_for drops the fronts of deleted paths and gives new paths a front at the current global time (part of the run_for invariant). NOT PROVED: Engine.apply_update folding the lists reported by Store.apply_update (trusted frame), Store.move/insert/divide reports. BOUNDED: after every batch of a structural history engine paths == processes/steps in the Store tree, published composite == state.get_*(), invocation counts.',
      drivers=[('bounded.struct', ['--prop', 'C10'])], rule=STRUCT_RULE)
-prop('C05', 'exploration',
-     'BOUNDED so far: random flow DAGs (+derivers, nesting): each step exactly once per phase with timestep 0, derivers '
-     'first in declaration order, dependencies before dependants, a dependant sees its dependencies\' outputs of this phase '
-     '(also structural ones through a glob port), steps of one layer see the same state, phases only after batches.',
+prop('C05', 'other',
+     "PROVED on run_steps / _send_updates / _calculate_update: a step phase runs exactly once after every batch (ghost phase counter, run_steps only reachable through _send_updates in run_for), every deferred step update of a layer is collected exactly once (Defer.get precondition, tokens distinct), all of a layer's updates are computed before any is applied, views are rebuilt after a layer whose updates expired them and before the next layer computes, steps are handed timestep 0 at the only call site. TRUSTED: the layering itself (networkx topological_generations + sorted). BOUNDED: random flow DAGs with derivers, nesting and a structural variant on the real engine.",
      drivers=[('bounded.steps', ['--prop', 'C05'])])
-prop('C04', 'exploration',
-     'BOUNDED so far: processes invoked at one instant are shown identical states; steps of one layer see one committed '
-     'state (incl. structural updates of earlier layers); the emitted trajectory is identical under permutations of the '
-     'listing order of processes / steps / flow / topology entries.',
+prop('C04', 'other',
+     'PROVED: in run_for every process invocation of one pass happens inside the polling loop, in which no update is applied (apply_update is only reachable through _send_updates after the loop; the loop is verified for an arbitrary visiting order of process_paths); in run_steps no update is applied while a layer is computed (ghost g_version frozen in the compute loop) and the views are valid (rebuilt after any expiring update) before the next layer or the next process is invoked (ghost g_views_valid, precondition of _process_state). BOUNDED: processes started together are shown identical states; steps of one layer see one committed state; the emitted trajectory is identical under permutations of the listing order (relational conclusion, not a postcondition of one call).',
      drivers=[('bounded.steps', ['--prop', 'C04'])])
 
 prop('C08', 'other',
-     'PROVED (all inputs): update_set, update_null, update_accumulate (int / float / mixed), update_nonnegative_accumulate '
-     '(scalar branch) satisfy the updater laws of the statement. BOUNDED: the same laws through the real '
-     'Store.apply_update (default updater, per-update _updater by name or function, _multi_update batches, merge, '
-     'dict_value, user functions, numpy arrays, quantities and unit normalisation, unmentioned variables untouched, update '
-     'object not modified).',
+     'PROVED (all inputs): update_set, update_null, update_accumulate (int/float/mixed), update_nonnegative_accumulate (scalar branch) and update_merge (result is the right-biased deep merge of the update into the current value: unmentioned keys kept, new keys added, nested dicts merged) with deep_merge by contract. BOUNDED: the same laws through the real Store.apply_update (default updater, per-update _updater by name or function, _multi_update batches, dict_value, user functions, numpy arrays, units, unmentioned variables untouched, update object not modified).',
      drivers=[('bounded.c08', [])], assumptions=[FLOATS])
 prop('C11', 'other',
      'PROVED (all inputs): divide_set, divide_set_value, divide_zero, divide_null, assert_no_divide, divide_binomial '
@@ -114,10 +94,8 @@ prop('C11', 'other',
      'registered dividers incl. split_dict, dividers with config, branch-level dividers, explicit daughter states, '
      'independence of daughters under in-place updates, two generations).',
      drivers=[('bounded.c11', []), ('bounded.struct', ['--prop', 'C11'])], assumptions=[FLOATS])
-prop('C13', 'exploration',
-     'BOUNDED ONLY so far (pipes and OS processes are external): serial == parallel for parallel subsets of schedule '
-     'scenarios; deletion of compartments with idle / due / in-flight parallel processes; end() once, twice, never; '
-     'profiling with a large profile; no live worker afterwards.',
+prop('C13', 'other',
+     "PROVED (command protocol): pre_send_command refuses a second command exactly when one is pending; get_command_result raises exactly when none is pending and clears it; ParallelProcess.send_command / get_command_result keep the count of answers owed by the child; ParallelProcess.end never raises (no 'still pending' RuntimeError: the in-flight answer is collected first), sends `end` exactly once, waits for the child only after everything it owes has been read (ghost assert before join: otherwise parent and child can wait for each other), joins and closes exactly once, does nothing on a second call and keeps an in-flight result collectable. TRUSTED: pipes FIFO/faithful, join/close. BOUNDED: serial == parallel, deletion with idle/due/in-flight workers, end() once/twice/never, profiling, no live worker afterwards.",
      drivers=[('bounded.c13', [])], driver_timeout={'quick': 900, 'thorough': 7200},
      trusted=['multiprocessing pipes are FIFO and faithful; join returns once the child left its loop'])
 prop('C16', 'exploration',
